@@ -588,7 +588,7 @@ pub fn gen_c08_with(rng: &mut Rng, tier: Tier, real_scale: bool) -> Case {
     };
     if let Some(k) = fault_k {
         // err % 4 == 0: the creator (or a chunk) fails with a plain io::Error
-        c08.env.faults = vec![crate::env::FaultSpec { k, err: 4 * rng.below(9) as u8, sticky: false, merge_nth: 0 }];
+        c08.env.faults = vec![crate::env::FaultSpec { k, err: 4 * rng.below(9) as u8, sticky: false, merge_nth: 0, panic: false }];
     }
     Case::Sort(c08)
 }
@@ -630,7 +630,7 @@ pub fn check_c08(case: &Case, st: &mut Stats) -> Verdict {
     let e = r.env.0.borrow();
     let total_volume: u64 = match &c.inserts {
         Entries::Literal(v) => v.iter().map(|(k, v)| (k.0.len() + v.0.len()) as u64).sum(),
-        Entries::Counter { n, width, vlen, .. } => n * (*width as u64 + *vlen as u64),
+        Entries::Counter { n, width, vlen, .. } | Entries::Noise { n, width, vlen, .. } => n * (*width as u64 + *vlen as u64),
     };
     if e.max_window_volume > bound {
         return viol(
